@@ -319,7 +319,7 @@ func (tr *trans) atAsserts(in ssa.Instruction, st State) {
 			}
 			for i := idx - 1; i >= 0 && !inMemory; i-- {
 				if dr, ok := blk.Instrs[i].(*ssa.DebugRef); ok && !dr.IsAddr {
-					if obj := dr.Object(); obj != nil && obj.Name() == name {
+					if obj := dr.Object(); obj != nil && !isFieldObj(obj) && obj.Name() == name {
 						if _, done := tr.vals[dr.X]; done {
 							return env.goSV(tr.val(dr.X), dr.X.Type()), true
 						}
